@@ -239,6 +239,21 @@ def bimg_case(rng, bits):
     return "bimg " + " ".join(map(str, L)), "bimg-%d-%d-s%d-m%d" % (bits, nc, script, mode)
 
 
+def coef_case(rng, bits, i):
+    """blocks whose only non-zero AC coefficients lie in one row / one column / the last row / the last column / nowhere /
+    at one position: the support classes of the zero-AC shortcuts of the IDCT kernels (C, SSE2, AVX2)"""
+    nc = rng.choice([1, 1, 3, 4])
+    w, h = rng.choice([(64, 64), (72, 56), (61, 45), (128, 32)])
+    fam = i % 6
+    L = [bits, nc, w, h, 6, fam, rng.below(1 << 40)]
+    if rng.chance(2, 3):
+        L += [rng.choice([75, 85, 90, 95, 100]), rng.below(2), 0, 0, -1, -1, -1, -1]
+    else:
+        q = [rng.range(1, 24) for _ in range(64)]
+        L += [-1, rng.below(2), 0, 1] + q + [0, 0, 0, 0]
+    return "api " + " ".join(map(str, L)), "coef-%d-%d-f%d" % (bits, nc, fam)
+
+
 def seq_case(rng, bits):
     """2..5 images on ONE compression object, quantisation tables changed in between (every kind of
     subset of the 64 entries, three ways of installing them), abbreviated streams, one decoder"""
@@ -440,13 +455,13 @@ def check_seq(ctx, fl, line, kind, impl, eps):
 
 
 # ------------------------------------------------------------------ driver
-def run_stream(ctx, exe, lines, what, rep, prefix=()):
+def run_stream(ctx, exe, lines, what, rep, prefix=(), env=None):
     """one result line per case line; a crash is reported and the stream resumes after the crashing case"""
     res, pos, restarts = [], 0, 0
     prefix = list(prefix)
     while pos < len(lines):
         chunk = prefix + lines[pos:]
-        rc, out, err = sh2([exe], input=("\n".join(chunk) + "\n").encode(), timeout=1700)
+        rc, out, err = sh2([exe], input=("\n".join(chunk) + "\n").encode(), timeout=1700, env=env)
         got = out.decode("utf-8", "replace").split("\n")
         if got and got[-1] == "":
             got.pop()
@@ -658,6 +673,7 @@ def run(ctx):
 
     # ---------------- API level ----------------
     if not replay or replay.get("stream") == "api":
+        ccases = []
         if replay:
             acases = [(replay["case"], "replay")]
         else:
@@ -673,8 +689,46 @@ def run(ctx):
                 acases.append(seq_case(arng, 12 if i % 4 == 3 else 8))
             for i in range(ctx.n(360, 5000)):
                 acases.append(bimg_case(arng, 12 if i % 4 == 3 else 8))
+            ccases = [coef_case(arng, 12 if i % 7 == 6 else 8, i) for i in range(ctx.n(180, 3000))]
         for fl in flavours:
             exe = ctx.cc("c07_api", ["c07_api.c"], fl, libs=("jpeg",))
+            # coefficient-support-aimed blocks at every SIMD dispatch level of this build
+            levels = [("default", {}), ("sse2", {"JSIMD_FORCESSE2": "1"}), ("none", {"JSIMD_FORCENONE": "1"})] if fl == "simd" else [("default", {})]
+            if replay and replay.get("env") is not None:
+                levels = [("replay", replay["env"])]
+            per_level = {}
+            for lname, env in levels:
+                if not ccases and not (replay and replay.get("env") is not None):
+                    break
+                lines = [c[0] for c in ccases] if ccases else [replay["case"]]
+                kinds = [c[1] for c in ccases] if ccases else ["replay"]
+                rs = run_stream(ctx, exe, lines, "c07 API harness %s SIMD level %s" % (fl, lname),
+                                {"stream": "api", "flavour": fl, "env": env}, env=env)
+                per_level[lname] = rs
+                for line, kind, impl in zip(lines, kinds, rs):
+                    key = None
+                    if impl != "<no output>":
+                        nv = len(ctx.violations)
+                        key = check_api(ctx, fl, line, kind, impl, eps)
+                        if len(ctx.violations) > nv:      # make the replay reproduce the dispatch level
+                            try:
+                                rp = ctx.violations[-1][0]
+                                ro = json.load(open(rp)); ro["env"] = env; ro["simd_level"] = lname
+                                json.dump(ro, open(rp, "w"), indent=1)
+                            except Exception:
+                                pass
+                    ctx.count(kind + "-" + lname, 1, key)
+            if len(per_level) > 1:
+                ref = per_level["none"]
+                for lname, rs in per_level.items():
+                    for (line, kind), a, b in zip(ccases, rs, ref):
+                        if a != b and "<no output>" not in (a, b):
+                            ctx.violation("accurate integer IDCT/FDCT path: SIMD dispatch level %s decodes differently from the C code on: %s" % (lname, line[:80]),
+                                          {"stream": "api", "flavour": fl, "case": line, "env": dict(levels)[lname], "impl": a[:1500], "c_code": b[:1500]},
+                                          signature="dispatch-levels-differ:" + lname)
+                            break
+            if replay and replay.get("env") is not None:
+                continue
             res = run_stream(ctx, exe, [c[0] for c in acases], "c07 API harness " + fl, {"stream": "api", "flavour": fl})
             for (line, kind), impl in zip(acases, res):
                 key = None
